@@ -9,11 +9,12 @@ import numpy as np
 import bct
 from bctmc import smallscope as ss
 from bctmc import oracles as orc
+from bctmc import trees
 from bctmc.runner import guarded
 from bctmc.tally import Tally
 
 PROPERTY = 'C04'
-RULE = ('for each deterministic measure: all labelled inputs of its class on 4 nodes (binary digraphs 4096, binary graphs 64, '
+RULE = ('every free tree on 8 nodes under the renumberings of bctmc/trees.py for every measure of the directed and undirected tables; for each deterministic measure: all labelled inputs of its class on 4 nodes (binary digraphs 4096, binary graphs 64, '
         'weights {1,2} 729, signed {-1,0,1} 729; weights {.4,.3,.1+.2} (two values one rounding error apart; thorough also decimal {.1,.2,.3,.4}) on 4-node graphs / 3-node digraphs for the path-based weighted measures; lengths {1,2} on all 59 049 5-node graphs x the 4 adjacent transpositions (which generate every renumbering; the family is closed under renumbering) for betweenness_wei and edge_betweenness_wei (thorough: also distance_wei, local efficiency_wei); with every set partition where a community vector is an argument) x all 24 '
         'renumberings (thorough: binary graphs on 5 nodes x 120 renumberings); non-trivial = (graph, renumbering) pairs where '
         'the renumbered graph differs from the graph')
@@ -65,7 +66,8 @@ DIR = {
     'findwalks': (lambda A: tuple(bct.findwalks(A)[0][:, :, q] for q in range(1, 4)) + tuple(bct.findwalks(A)[1:]), 'mmmss'),
     'jdegree': (bct.jdegree, 'ssss'),
     'gtom[1]': (lambda A: bct.gtom(A, 1), 'm'), 'gtom[2]': (lambda A: bct.gtom(A, 2), 'm'),
-    'gtom[3]': (lambda A: bct.gtom(A, 3), 'm'),
+    'gtom[3]': (lambda A: bct.gtom(A, 3), 'm'), 'gtom[4]': (lambda A: bct.gtom(A, 4), 'm'),
+    'gtom[6]': (lambda A: bct.gtom(A, 6), 'm'),
     'rout_efficiency': (bct.rout_efficiency, 'smv'), 'erange': (bct.erange, 'msms'),
     'rich_club_wd': (lambda A: bct.rich_club_wd(A, klevel=6), 's'),
     'mean_first_passage_time': (lambda A: bct.mean_first_passage_time(A) if ss.strongly_connected(A) else np.zeros((len(A),) * 2), 'm'),
@@ -145,6 +147,11 @@ def plan(ctx):
     for name in PATH_WEIGHTED if ctx.thorough else PATH_WEIGHTED[:2]:
         for (a, b) in ss.ranges(ss.und_count(5, (0, 1, 2)), 32):
             units.append(('gen', 'und12_5', 'UND', name, a, b))
+    # every free tree on 8 nodes (23 shapes) under the renumberings of bctmc/trees.py (BFS / DFS / peeling / degree orders
+    # from every root): long paths and deep structures that no 4-5 node graph has
+    for table, T in (('DIR', DIR), ('UND', UND)):
+        for name in T:
+            units.append(('shapes', 'tree8', table, name))
     for name in SIGNED:
         units.append(('plain', 'sign', 'SIGNED', name))
     for name in WITH_CI:
@@ -234,9 +241,29 @@ def work_generators(unit):
     return t
 
 
+def work_shapes(unit):
+    mode, fam, table, name = unit
+    t = Tally(PROPERTY)
+    f, kinds = {'DIR': DIR, 'UND': UND}[table][name]
+    t.c['measures'] += 1
+    for si, A, perms in trees.shape_orders(8):
+        base = evaluate(f, A)
+        t.c['evaluations'] += 1
+        for lab, p in perms:
+            other = evaluate(f, A[np.ix_(p, p)])
+            t.c['evaluations'] += 1
+            t.c['pairs_compared'] += 1
+            t.c['nontrivial'] += 1
+            compare(t, name.split('[')[0], kinds, base, other, p,
+                    {'measure': name, 'family': fam, 'A': A, 'perm': p, 'order': lab})
+    return t
+
+
 def work(unit):
     if unit[0] == 'gen':
         return work_generators(unit)
+    if unit[0] == 'shapes':
+        return work_shapes(unit)
     mode, fam, table, name = unit
     t = Tally(PROPERTY)
     n, alpha, graphs, idx_of = graphs_of(fam)
